@@ -102,6 +102,8 @@ mutual
   def eqNR : EVal → EVal → Res Bool
     | .cell a, .cell b => .ok (cellEq a b)                -- NaN test / `x == y` in try-except: never raises
     | .date a, .date b => .ok (a == b)
+    | .tdelta a, .tdelta b => .ok (a == b)
+    | .nat, .nat => .ok true                              -- `x is y`
     | .list xs, .list ys => seqBranch xs.length ys.length (zipR xs ys)              -- :72
     | .tuple xs, .tuple ys => seqBranch xs.length ys.length (zipR xs ys)            -- :72
     | .arr s xs, .arr t ys => arrBranch s t (zipR xs ys)                            -- :74
